@@ -534,6 +534,13 @@ AnyP::Uri::parse(const HttpRequestMethod& method, const SBuf &rawUrl)
         while ((l = strlen(foundHost)) > 0 && foundHost[--l] == '.')
             foundHost[l] = '\0';
 
+        // The "missing hostname" test above ran before the port was split off
+        // and trailing dots were removed: "http://:80/" and "http://./" get here
+        if (*foundHost == '\0') {
+            debugs(23, DBG_IMPORTANT, MYNAME << "Missing hostname in URL '" << rawUrl << "'");
+            return false;
+        }
+
         /* reject duplicate or leading dots */
         if (strstr(foundHost, "..") || *foundHost == '.') {
             debugs(23, DBG_IMPORTANT, MYNAME << "Illegal hostname '" << foundHost << "'");
